@@ -409,12 +409,27 @@ def check_whole_name_match(chk, prog, u, field="long_opt", rule="N4", only=None,
             kind = length_of(an)
             # tests of the byte at index n of either string anywhere in the enclosing condition / function
             ends_word = ends_name = False
+
+            def terms(e):
+                """the summands of an address / index expression (p + i + l -> [p, i, l])"""
+                e = X.strip(e)
+                if e is None:
+                    return []
+                if e.get("k") == "bin" and e.get("op") == "+":
+                    return terms(e["ch"][0]) + terms(e["ch"][1])
+                return [canon(f, e)]
+            word_at_n = sorted(terms(word_e) + terms(an))
             for x in walk(f.body):
                 if x.get("k") == "index" and same_len(x["ch"][1], an):
                     if is_name(x["ch"][0]):
                         ends_name = True
                     elif canon(f, x["ch"][0]) == canon(f, word_e):
                         ends_word = True
+                # the same byte addressed another way: (s + i)[l] is s[i + l] is *(s + i + l)
+                if x.get("k") == "index" and not is_name(x["ch"][0]) and sorted(terms(x["ch"][0]) + terms(x["ch"][1])) == word_at_n:
+                    ends_word = True
+                if x.get("k") == "un" and x.get("op") == "*" and not is_name(x["ch"][0]) and sorted(terms(x["ch"][0])) == word_at_n:
+                    ends_word = True
             ok = (kind == "name" and ends_word) or (kind == "word" and ends_name)
             chk.ob(rule, f.name, "whole-name-match:" + canon(f, c)[:40], ok, loc=f.loc(c),
                    detail="%s matches a table name with %s bounded by %s, and never tests that %s ends at that length: %s" % (
